@@ -10,6 +10,7 @@ import Miden.Lemmas.Memcopy
 import Miden.Lemmas.PipeMem
 import Miden.Lemmas.Forward
 import Miden.Lemmas.ForwardAdv
+import Miden.Lemmas.TruncTotal
 import Miden.Generated.StdlibSys
 namespace Miden.C18
 open Miden
@@ -137,6 +138,17 @@ example : ((Vm.exec {} 20 Generated.mem_pipe_double_words_to_memory
 example : (Vm.exec {} 20 Generated.mem_pipe_double_words_to_memory
       { stack := List.replicate 12 0 ++ [100, 102, 5, 6], adv := [1, 2, 3, 4, 5, 6, 7] }).toOption = none := by
   decide +kernel
+
+/-- **`truncate_stack` terminates**: for every stack at least 16 deep and a frame pointer with room
+    for the four locals, with fuel `≥ (depth − 13)/4 + 4` and a cycle budget of
+    `11·((depth − 13)/4) + 80`, the executor completes and leaves exactly the original top 16. -/
+theorem truncate_stack_terminates (env : Env) (fuel : Nat) (vm : Vm) (hl : 16 ≤ vm.stack.length)
+    (hf1 : FMP_MIN ≤ vm.fmp) (hf2 : vm.fmp + 4 ≤ FMP_MAX)
+    (hf : (vm.stack.length - 13) / 4 + 4 ≤ fuel)
+    (hb : vm.clk + 11 * ((vm.stack.length - 13) / 4) + 80 ≤ env.maxCycles) :
+    ∃ vm', Vm.exec env fuel Generated.sys_truncate_stack vm = .ok vm' ∧ vm'.stack = vm.stack.take 16 := by
+  obtain ⟨vm', h⟩ := Trunc.truncate_stack_total env fuel vm hl hf1 hf2 hf hb
+  exact ⟨vm', h, (Trunc.truncate_stack_spec env fuel vm vm' hl hf1 hf2 h).1⟩
 
 /-- **`memcopy` terminates**: for every word count `n`, pointers in the 32-bit address space, fuel
     `≥ n + 4` and a cycle budget of `19·n + 25`, the executor completes (the result is then the one of
